@@ -11,7 +11,7 @@ use crate::with_spec;
 pub const RULE: &str = "(specification, conformant tag forest, per-tag presentation) decoded from a proptest choice tape: spec = generated DynSpec (ids of 1-8 bytes, depth <= 6, \
 global placeholders) or the macro-derived RichSpec; payload lengths from {0,1,2,7,8,9,126..129,16382..16384} ∪ small ∪ 100..300 (thorough: also 65535..70000 and 2^21±1); presentation per tag \
 default | size width 1-8 | unknown size | Full (masters inside a Full item as nested Full or as Start/End children of it); a variant mixes in raw tags and reads with InvalidTagIds tolerated; a third of the documents are written a second time with some default-option leaves handed over through write_raw(id, payload bytes) and must read back the same; every output is also read back through a small buffer and/or short reads. Oracle: every write is Ok, the strict read of the written bytes equals flatten(forest) \
-item by item (floats by bits) with no error. Stage roundtrip_huge: payloads of 64 KiB - 2 MiB, half of the cases with one forced onto an element (half of those: the first child of an unknown-size master below unknown-size ancestors only). Non-trivial: a master with >= 1 child and >= 1 of {boundary length, explicit width, unknown size, Full, negative integer, float, raw tag}; distinct by hash of (spec, forest).";
+item by item (floats by bits) with no error. One case in five mixes raw tags (ids outside the specification) in and reads with InvalidTagIds tolerated - inside unknown-size masters too (directly after one they are excluded like global elements). Stage roundtrip_huge: payloads of 64 KiB - 2 MiB, half of the cases with one forced onto an element (half of those: the first child of an unknown-size master below unknown-size ancestors only). Non-trivial: a master with >= 1 child and >= 1 of {boundary length, explicit width, unknown size, Full, negative integer, float, raw tag}; distinct by hash of (spec, forest).";
 
 pub const ASSUMPTIONS: &[&str] = &[
     "explicit widths are drawn from those that can hold the size (the all-ones value is the reserved 'unknown'); too-small widths are C19/C09's business",
